@@ -71,6 +71,17 @@ CHECKS = {
               'and pair relations (monotone, marginal bound, QSS==MFJ). Exhaustive below 100000 in the thorough tier; sampled above.'),
         note='Trusted: data/brackets.json (typed from Rev. Proc. 2020-45/2021-45/2022-38), the IRS row layout and half-up rounding rule, CPython Fractions.',
         design='3/C07'),
+    'C08': dict(
+        category='exploration',
+        technique='exhaustive enumeration of (year, status, amount) triples from an independent sourced table, each observed through an echo or straddle probe on the real line definition with drawn backgrounds; second witness parsed from the bundled templates where the amount is printed',
+        text=('41 amount families x years x 5 statuses (560 triples): standard deductions, capital-gain breakpoints, AMT exemption / phase-out / 28% start, '
+              'child-credit amounts and phase-out starts, Additional Medicare thresholds, HSA limits, SALT cap, QBI, EIC (4 child counts + investment '
+              'income) and saver-credit limits, recovery rebate amounts, foreign tax limit, NC rate, NC standard deduction and every band of the NC '
+              'child deduction. Echo probes read the line that prints the amount; straddle probes evaluate the deciding line at limit-0.01 / limit / '
+              'limit+0.01. The finite table is enumerated completely; amounts printed in the templates (standard deduction, 8959, 8889, Schedule A, '
+              '8812 line 9, NC rate) are cross-checked at run time.'),
+        note='Trusted: data/statute.json (sources per entry; typed from the Revenue Procedures/instructions) and the probe definitions in tools/build_statute.py.',
+        design='3/C08'),
     'C09': dict(
         category='exploration',
         technique='gate-mode scenario generation (persona steered per gate, declaring answer injected, consultation proved by a recording input store) + isolated evaluation of owning lines under recorded witness assignments and typed random reads + limit recipes with just-below controls',
